@@ -45,6 +45,7 @@ def c08(tier):
     cw.cw2(P, C, only=("writesplinefitstable", "writesplinefitstable_mem"))
     if tier == "thorough":
         py_write(P, C)
+    ed.ed5(P, C)
     C.extra["units"] = sorted(P.units.keys())
     C.extra["cfitsio_call_sites"] = n
     return C.finish()
